@@ -303,7 +303,7 @@ def run(ctx):
                        "double reads on the last instance; a case is non-trivial if >= 2 instances exist and some step "
                        "returns a container object; distinct = distinct (configuration, history)")
     rnd = random.Random(ctx.seed)
-    n, maxlen = (400, 12) if ctx.tier == "quick" else (4000, 30)
+    n, maxlen = (400, 12) if ctx.tier == "quick" else (3000, 30)
     if ctx.replay:
         cases = [json.load(open(ctx.replay))["replay"]["case"]]
     else:
